@@ -594,7 +594,28 @@ impl<'a> G01<'a> {
 
     fn named_let(&mut self, ty: &Ty, depth: u32) -> Sx {
         let d = depth.saturating_sub(1);
-        let lp = self.fresh("loop");
+        // sometimes the loop tag takes the name of a visible variable that an init expression
+        // reads: the tag is bound in the body only, the init sees the outer variable
+        let shadow: Option<String> = if self.rng.chance(1, 3) {
+            let cands: Vec<String> = self
+                .vars_of(|v| matches!(&v.kind, VKind::Data(Ty::Int)))
+                .into_iter()
+                .map(|v| v.name)
+                .filter(|n| !n.starts_with('i') && !n.starts_with("acc"))
+                .collect();
+            if cands.is_empty() {
+                None
+            } else {
+                self.shadowings += 1;
+                Some(cands[self.rng.usize(cands.len())].clone())
+            }
+        } else {
+            None
+        };
+        let lp = match &shadow {
+            Some(n) => n.clone(),
+            None => self.fresh("loop"),
+        };
         let i = self.fresh("i");
         let acc = self.fresh("acc");
         let n = self.rng.range(0, 6);
@@ -611,6 +632,10 @@ impl<'a> G01<'a> {
             assignable: false,
             level: 0,
         });
+        if shadow.is_some() {
+            // inside the body the name denotes the loop procedure
+            self.hidden.push(lp.clone());
+        }
         let step = match ty {
             Ty::Int => {
                 let e = self.expr(&Ty::Int, d.min(2));
@@ -621,9 +646,14 @@ impl<'a> G01<'a> {
                 call("cons", vec![e, sym(&acc)])
             }
         };
+        if shadow.is_some() {
+            self.hidden.pop();
+        }
         self.locals.truncate(base);
-        let init = match ty {
-            Ty::Int => int(self.small_int()),
+        let init = match (ty, &shadow) {
+            (Ty::Int, Some(n)) => call("+", vec![sym(n), int(self.small_int())]),
+            (_, Some(n)) => call("list", vec![sym(n)]),
+            (Ty::Int, None) => int(self.small_int()),
             _ => quote(list(vec![])),
         };
         list(vec![
